@@ -461,6 +461,7 @@ static void body_histogram(Tape &t, Ctx &c) {
 
 int main(int argc, char **argv) {
 	workload::g_with_bytes = true;
+	workload::g_with_base = true;
 	refcrc::self_test();
 	find_lib_rw();
 	if (g_lib_rw.empty()) { fprintf(stderr, "ORACLE-BUG: no writable mapping of libisal_v.so found\n"); return 3; }
